@@ -60,6 +60,7 @@ def main(tier):
     fb2, _ = pygen.enum_frame_bodies(2)
     fb3, _ = pygen.enum_frame_bodies(3, rng, None if thorough else 700)
     mods += pygen.modules_from_bodies(fb2 + fb3[len(fb2) if thorough else 0:])
+    mods += pygen.modules_from_bodies(pygen.arm_chain_bodies())
     # async defs, methods and decorated definitions (the files of this check are not executed): every third module
     for m in mods[::3]:
         if not m.get("dup"):
